@@ -2,7 +2,7 @@
    the reader model computes for an element are the begin and end of the TTML2 interval semantics
    (Spec/TtmlTimingSpec.v interval), by induction on the tree (par and seq containers, begin/end/dur,
    anonymous spans, set/br/region). *)
-From TT Require Import Base.Prelude Base.ImscXml Model.ImscTime Model.ImscTiming Spec.TtmlTimingSpec.
+From TT Require Import Base.Prelude Base.ImscXml Model.ImscTime Model.ImscStyles Model.ImscTiming Spec.TtmlTimingSpec.
 From Coq Require Import QArith Qminmax Lqa.
 Local Open Scope Z_scope.
 
@@ -148,10 +148,10 @@ Proof.
 Qed.
 
 (* ---- the induction ------------------------------------------------------------------------------------ *)
-Lemma loop_pf_mono proc k par db pr lg l : forall iend kids anims iF kF aF pF,
-  children_loop proc k par db pr lg l iend kids anims true = LDone iF kF aF pF -> pF = true.
+Lemma loop_pf_mono proc tm vl k par db pr lg l : forall iend kids anims nst iF kF aF pF nF,
+  children_loop proc tm vl k par db pr lg l iend kids anims true nst = LDone iF kF aF pF nF -> pF = true.
 Proof.
-  induction l as [|c l IH]; intros iend kids anims iF kF aF pF H; cbn [children_loop] in H.
+  induction l as [|c l IH]; intros iend kids anims nst iF kF aF pF nF H; cbn [children_loop] in H.
   - inversion H; reflexivity.
   - revert H. break_match; intro H; try discriminate; eapply IH; exact H.
 Qed.
@@ -189,17 +189,18 @@ Section Main.
         oq_rel (r_des_end r) (snd (interval (tv_of ev) (negb (pc_par pc)) sync x)).
 
   Lemma loop_par k db pr lg l : Forall sound l ->
-    forall iend kids anims pf iF kF aF acc,
-      children_loop (process ev) k true db pr lg l iend kids anims pf = LDone iF kF aF false ->
+    forall iend kids anims pf nst iF kF aF nF acc,
+      children_loop (process ev) (e_to_model ev) (e_valid ev) k true db pr lg l iend kids anims pf nst = LDone iF kF aF false nF ->
       oq_rel iend (oadd db acc) ->
       oq_rel iF (oadd db (par_dur (interval (tv_of ev)) (k_is_mixed k) l acc)).
   Proof.
-    induction 1 as [|c l Hc Hl IH]; intros iend kids anims pf iF kF aF acc H Hrel.
+    induction 1 as [|c l Hc Hl IH]; intros iend kids anims pf nst iF kF aF nF acc H Hrel.
     - cbn [children_loop] in H. inversion H; subst. exact Hrel.
     - cbn [children_loop par_dur] in H |- *. rewrite andb_true_r in H.
       destruct (ekind_eqb k KRegion && is_style_elem c) eqn:Est.
       { apply andb_true_iff in Est as [Ek Es]. rewrite (is_style_not_timed c Es).
         assert (k = KRegion) by (destruct k; try discriminate; reflexivity). subst k. cbn [k_is_mixed andb].
+        destruct (merge_absent (e_valid ev) (collect (e_to_model ev) (x_attrs c) []) nst); [|discriminate].
         eapply IH; eassumption. }
       destruct (process ev (mkPctx true iend db pr lg (negb (ekind_eqb k KSet))) c) as [e| |r] eqn:Ep.
       + discriminate.
@@ -230,25 +231,27 @@ Section Main.
   Qed.
 
   Lemma loop_seq k db pr lg l : Forall sound l ->
-    forall iend kids anims pf iF kF aF,
-      children_loop (process ev) k false db pr lg l iend kids anims pf = LDone iF kF aF false ->
+    forall iend kids anims pf nst iF kF aF nF,
+      children_loop (process ev) (e_to_model ev) (e_valid ev) k false db pr lg l iend kids anims pf nst = LDone iF kF aF false nF ->
       match iend with
       | Some ie => forall cursor, (ie - db == cursor)%Q -> oq_rel iF (oadd db (seq_dur (interval (tv_of ev)) l cursor))
       | None => iF = None
       end.
   Proof.
-    induction 1 as [|c l Hc Hl IH]; intros iend kids anims pf iF kF aF H.
+    induction 1 as [|c l Hc Hl IH]; intros iend kids anims pf nst iF kF aF nF H.
     - cbn [children_loop] in H. inversion H; subst. destruct iF as [ie|]; [|reflexivity].
       intros cursor Hcur. cbn [seq_dur oadd oq_rel]. rewrite <- Hcur. ring.
     - cbn [children_loop] in H. rewrite andb_false_r in H.
       destruct (ekind_eqb k KRegion && is_style_elem c) eqn:Est.
-      { apply andb_true_iff in Est as [Ek Es]. specialize (IH _ _ _ _ _ _ _ H).
+      { apply andb_true_iff in Est as [Ek Es].
+        destruct (merge_absent (e_valid ev) (collect (e_to_model ev) (x_attrs c) []) nst); [|discriminate].
+        specialize (IH _ _ _ _ _ _ _ _ _ H).
         destruct iend as [ie|]; [|exact IH]. intros cursor Hcur. cbn [seq_dur]. rewrite (is_style_not_timed c Es). apply IH; exact Hcur. }
       destruct (process ev (mkPctx false iend db pr lg (negb (ekind_eqb k KSet))) c) as [e| |r] eqn:Ep.
       + discriminate.
-      + assert (H' : children_loop (process ev) k false db pr lg l iend kids anims pf = LDone iF kF aF false).
+      + assert (H' : children_loop (process ev) (e_to_model ev) (e_valid ev) k false db pr lg l iend kids anims pf nst = LDone iF kF aF false nF).
         { destruct (x_tail c); exact H. }
-        specialize (IH _ _ _ _ _ _ _ H').
+        specialize (IH _ _ _ _ _ _ _ _ _ H').
         destruct iend as [ie|]; [|exact IH]. intros cursor Hcur. cbn [seq_dur]. rewrite (process_skip_timed _ _ _ Ep). apply IH; exact Hcur.
       + destruct iend as [ie|].
         2:{ exfalso. eapply process_no_syncbase; [|exact Ep]. reflexivity. }
@@ -258,16 +261,16 @@ Section Main.
         apply orb_false_iff in Hpf as [Hpf1 Hpf2]. rewrite Hpf1, Hpf2 in H. cbn [orb] in H.
         destruct (Hc _ _ Ep Hpf2) as [sync [Hs [_ He]]].
         cbn [implicit_begin pc_par pc_impl_end pc_des_begin] in Hs. inversion Hs; subst sync. cbn [pc_par negb] in He.
-        assert (H' : children_loop (process ev) k false db pr lg l
+        assert (H' : children_loop (process ev) (e_to_model ev) (e_valid ev) k false db pr lg l
                        (match r_des_end r with Some ce => Some (ce + db)%Q | None => None end)
                        (match r_node r with
                         | Some n => if negb (ekind_eqb (r_kind r) KSet) &&
                                        match r_des_end r with None => true | Some ce => negb (Qeq_bool (r_des_begin r) ce) end
                                     then kids ++ [n] else kids
                         | None => kids end)
-                       (match r_anim r with Some a => anims ++ [a] | None => anims end) false = LDone iF kF aF false).
+                       (match r_anim r with Some a => anims ++ [a] | None => anims end) false nst = LDone iF kF aF false nF).
         { destruct (x_tail c); exact H. }
-        specialize (IH _ _ _ _ _ _ _ H').
+        specialize (IH _ _ _ _ _ _ _ _ _ H').
         intros cursor Hcur. cbn [seq_dur]. rewrite (process_ok_timed _ _ _ _ Ep).
         destruct (interval_sync (tv_of ev) true (ie - db) cursor c Hcur) as [_ Hsync].
         pose proof (oq_rel_trans _ _ _ He Hsync) as He'.
@@ -317,9 +320,10 @@ Proof.
   set (preserve := if ekind_eqb k KSet then pc_preserve pc else read_space attrs (pc_preserve pc)) in *.
   set (iend0 := if k_indefinite_in_par k && pc_par pc then None else Some dbegin) in *.
   set (iend1 := match txt with Some t => if k_is_mixed k && par then None else iend0 | None => iend0 end) in *.
-  destruct (children_loop (process ev) k par dbegin preserve lang cs iend1
-              (match txt with Some t => if k_is_mixed k && par then [anon_span k preserve lang t] else [] | None => [] end) [] false)
-    as [e|iF kF aF pF] eqn:Eloop; [discriminate|].
+  destruct (children_loop (process ev) (e_to_model ev) (e_valid ev) k par dbegin preserve lang cs iend1
+              (match txt with Some t => if k_is_mixed k && par then [anon_span k preserve lang t] else [] | None => [] end) [] false [])
+    as [e|iF kF aF pF nF] eqn:Eloop; [discriminate|].
+  destruct (if k_has_styles k then referential (e_valid ev) (e_styles ev) (rev (style_refs attrs)) nF else Some nF) as [st1|]; [|discriminate].
   destruct (if k_has_children k then push_children k kF else ([], true)) as [pushed ok] eqn:Epush.
   destruct ok; cbn [negb] in H.
   2:{ inversion H; subst r. discriminate. }
@@ -342,12 +346,12 @@ Proof.
   - (* indefinite from the start *)
     assert (Hi1 : iend1 = None). { unfold iend1, iend0. destruct txt; [destruct (k_is_mixed k && par)|]; reflexivity. }
     rewrite Hi1 in Eloop. destruct par eqn:Epar.
-    + pose proof (loop_par ev k dbegin preserve lang cs IHcs _ _ _ _ _ _ _ None Eloop I) as Hl.
+    + pose proof (loop_par ev k dbegin preserve lang cs IHcs _ _ _ _ _ _ _ _ _ None Eloop I) as Hl.
       rewrite par_dur_none in Hl. destruct iF; simpl in Hl; [contradiction|exact I].
-    + pose proof (loop_seq ev k dbegin preserve lang cs IHcs _ _ _ _ _ _ _ Eloop) as Hl. cbn in Hl. subst iF. exact I.
+    + pose proof (loop_seq ev k dbegin preserve lang cs IHcs _ _ _ _ _ _ _ _ _ Eloop) as Hl. cbn in Hl. subst iF. exact I.
   - destruct par eqn:Epar; cbn [negb].
     + rewrite andb_true_r in *.
-      pose proof (loop_par ev k dbegin preserve lang cs IHcs _ _ _ _ _ _ _
+      pose proof (loop_par ev k dbegin preserve lang cs IHcs _ _ _ _ _ _ _ _ _
                     (if k_is_mixed k && has_text txt then None else Some 0%Q) Eloop) as Hl.
       assert (Hrel : oq_rel iend1 (oadd dbegin (if k_is_mixed k && has_text txt then None else Some 0%Q))).
       { unfold iend1, iend0. destruct txt; cbn [has_text]; [destruct (k_is_mixed k); cbn [andb oadd oq_rel]|rewrite andb_false_r; cbn [oadd oq_rel]]; try exact I; ring. }
@@ -356,6 +360,6 @@ Proof.
     + rewrite andb_false_r in *.
       assert (Hi1 : iend1 = Some dbegin). { unfold iend1, iend0. destruct txt; [rewrite andb_false_r|]; reflexivity. }
       rewrite Hi1 in Eloop.
-      pose proof (loop_seq ev k dbegin preserve lang cs IHcs _ _ _ _ _ _ _ Eloop 0%Q) as Hl.
+      pose proof (loop_seq ev k dbegin preserve lang cs IHcs _ _ _ _ _ _ _ _ _ Eloop 0%Q) as Hl.
       eapply oq_rel_trans; [apply Hl; ring|]. apply oadd_compat; [exact Hb|apply oq_rel_refl].
 Qed.
